@@ -14,3 +14,5 @@ def run(ctx, rep):
     more3.rule_create_only_first(mod, rep)
     from ..rules import more4
     more4.rule_workfreeall_order(mod, rep)
+    from ..rules import more6
+    more6.rule_free_mode(mod, rep)
